@@ -98,6 +98,9 @@ def universe(tier):
         ('DF0x{a,b}', pd.DataFrame({'a': [], 'b': []}, index=E0, dtype=float)), ('DF0x{a,c}', pd.DataFrame({'a': [], 'c': []}, index=E0, dtype=float)),
         ('DF{}@A', pd.DataFrame(index=A)), ('DF{}@B', pd.DataFrame(index=B)),
         # overlapping VIEWS of one buffer: same shape, same memory, different cells
+        # empty arrays of different shapes; an object array whose cell is a one-element array (a container, not the number in it)
+        ('arr(0,2)q', np.zeros((0, 2))), ('arr(2,0)q', np.zeros((2, 0))), ('arr(0,0)', np.zeros((0, 0))), ('arrO[1,arr[2]]', _objarr([1, np.array([2])])),
+        ('arrO[1,2]', _objarr([1, 2])), ('[1,arr[2]]', [1, np.array([2])]),
         ('buf[:2]', buf[:2]), ('buf[1:]', buf[1:]), ('buf[::-1][1:]', buf[::-1][1:]), ('sq.T', sq.T), ('[buf[:2]]', [buf[:2]]), ('[buf[1:]]', [buf[1:]]),
     ]
     if tier == 'quick':
